@@ -275,6 +275,10 @@ def run_traced(job):
         if len(job) > 5 and (job[5] is not None or (len(job) > 6 and job[6] is not None)):
             pm = glide_model(job[5], job[6] if len(job) > 6 else None)
         m = mission(route[0], route[1], load_factor=lf)
+        # starting masses at the edge of the performance table's mass range (LegacyFlight.tla: whatever is returned
+        # carries the reported starting mass at its first point; what cannot be flown is rejected)
+        if isinstance(start_mass, str):
+            start_mass = {'max': float(pm.maximum_mass), 'max+': float(pm.maximum_mass) + 0.5, 'max++': float(pm.maximum_mass) + 1000.0}[start_mass]
         kw = {} if start_mass is None else {'starting_mass': start_mass}
         try:
             t = builder(fracs=fracs, iterate=iterate).fly(pm, m, **kw)
@@ -314,6 +318,10 @@ def traced_jobs(ctx):
         jobs.append((p, 0.5, fr[2], 60000.0, False))
         jobs.append((p, 1.0, fr[0], 52000.0, False))
         jobs.append((p, 1.0, fr[1], None, True))
+    for p in [('BOS', 'LAX'), ('BOS', 'JFK')]:
+        for sm in ('max', 'max+', 'max++'):
+            jobs.append((p, 1.0, fr[1], sm, False))
+            jobs.append((p, 1.0, fr[1], sm, True))
     # valid tables with another glide ratio: 0.6 overshoots the destination by tens of km, 1.5 stops well short
     for p in [('BOS', 'LAX'), ('SFO', 'ORD'), ('DLW', 'DLE'), ('PLA', 'PLB'), ('MRA', 'MRB')]:
         for sc in (0.6, 1.5):
